@@ -290,7 +290,12 @@ def family(run, prefixes, faults, crash, variants=None):
 def c04(run):
     family(run, ["C04_", "C06_clean_restart"], faults=False, crash=False,
            variants={"nowait": 0.3, "wfail": 0.08 if run.tier == "quick" else 0.5, "sameobj": 0.1 if run.tier == "quick" else 0.5,
-                     "longscen": 80 if run.tier == "quick" else 800})
+                     "dfail": 0.3 if run.tier == "quick" else 1.0, "longscen": 80 if run.tier == "quick" else 800})
+    # concurrent callers: an appender's own Append + Sync while other callers' Syncs, flushes and a tail-side deletion are
+    # in flight (free schedules through the store's yield points and datastore operations): what it appended is readable
+    # once its Sync has returned
+    from .conc import explore
+    explore(run, "c17", 8000 if run.tier == "quick" else 100000, ["C04_every_appended_header_retrievable_once"])
 
 
 @register("C08")
